@@ -90,6 +90,13 @@ func suiteHash(c *ctx) {
 			ps := p.scriptGrouped()
 			addPres("permuted-indexes", ps, whole(ps), plain)
 		}
+		// a single-column primary key written as a table-level constraint (MySQL)
+		if dialect == "mysql" {
+			if tp, ok := tableLevelPk(base); ok {
+				pres = append(pres, L("pres", q("table-level-pk"), stmtsSexp(base), q(hashOf(cfg, plain, whole(tp)))))
+				c.count("pres_table-level-pk")
+			}
+		}
 		// the default index type spelled out (MySQL)
 		if dialect == "mysql" {
 			eb := append([]Stmt{}, base...)
